@@ -289,6 +289,13 @@ def gen_plan(prop, run_seed, tier, ctx):
             'fault_free': fault_free}
 
 
+def pick_probe(dec, plist):
+    strong = [p for p in plist if p.get('strong')]
+    if strong and dec.choice('strong-probe', 2):
+        return strong[dec.choice('sp', len(strong))]['key']
+    return plist[dec.choice('probe', len(plist))]['key']
+
+
 def gen_get_op(dec, ctx, focus):
     """C17 request: (recogniser kind, requested culture string, fallback, options, target-culture usage, lazy flag)."""
     sup = ctx['supported']
@@ -315,7 +322,7 @@ def gen_get_op(dec, ctx, focus):
         lazy = False      # Recognizer(None, lazy_initialization=True) builds every culture's model: 20 s for date-time
     op = {'op': 'get', 'kind': kind, 'culture': cs, 'culture_class': cls, 'fallback': bool(dec.choice('fallback', 2)),
           'opt': opt, 'use_target': use_target, 'lazy': lazy, 'target': target,
-          'probe': ctx['probes'][kind][dec.choice('probe', len(ctx['probes'][kind]))]['key']}
+          'probe': pick_probe(dec, ctx['probes'][kind])}
     return op
 
 
